@@ -29,6 +29,11 @@ type pass struct {
 func allPasses(tier string) ([]pass, [][]*opSpec, map[string]int) {
 	bl, dl := bigLattice(tier), decLattice(tier)
 	bil, sil, i64l, u64l := bigIntLattice(), sdkIntLattice(), int64Lattice(), uint64Lattice()
+	if *flagNonNeg {
+		bl.nonNeg()
+		dl.nonNeg()
+		bil, sil, i64l, u64l = nonNeg(bil), nonNeg(sil), nonNeg(i64l), nonNeg(u64l)
+	}
 	tables := [][]*opSpec{
 		bigUnaryOps(), bigBinaryOps(), bigDecMixedOps(), bigBigIntOps(), bigInt64Ops(), // 0..4
 		decUnaryOps(), bigFromDecOps(), decBinaryOps(), bigFromDecPairOps(), decSdkIntOps(), decInt64Ops(), // 5..10
@@ -212,8 +217,10 @@ func main() {
 		return
 	}
 
+	startRecorder()
 	h.canonical(ps)
 	h.sharded(ps)
+	rec.finish()
 
 	// canonical violations are the same in every shard: deal them out so that their union is complete
 	// whatever the shard count; then the shard's own first-per-assertion violations
@@ -258,9 +265,9 @@ func finish(f *core.Flags, r *core.Result) {
 func samples(tables [][]*opSpec) []interface{} {
 	type sc struct{ op, a, b string }
 	cases := []sc{
-		{"Mul", "500000000000000000000000000000000000", "1"},     // 0.5 * 1ulp: tie -> 0
-		{"Mul", "1500000000000000000000000000000000000", "1"},    // 1.5 * 1ulp: tie -> 2ulp
-		{"Quo", "1", "1999999999999999999999999999999999999"},    // 1ulp / (2-1ulp): tie only after truncation at 72 decimals
+		{"Mul", "500000000000000000000000000000000000", "1"},  // 0.5 * 1ulp: tie -> 0
+		{"Mul", "1500000000000000000000000000000000000", "1"}, // 1.5 * 1ulp: tie -> 2ulp
+		{"Quo", "1", "1999999999999999999999999999999999999"}, // 1ulp / (2-1ulp): tie only after truncation at 72 decimals
 		{"QuoRoundUp", "1000000000000000000000000000000000000", "3000000000000000000000000000000000000"},
 		{"Add", maxBigRaw.String(), "1"},
 		{"Dec.Quo", "1", "2000000000000000000"},
